@@ -1106,6 +1106,10 @@ func TestVerifConcStress(t *testing.T) {
 					case op < 11: // new scope from the provider
 						guard("provider.CreateScope", func() {
 							ctx, cancel := context.WithCancel(context.Background())
+							if r.Intn(4) == 0 { // the caller's context ends while the scope is being created
+								go cancel()
+								count("create_racing_cancel")
+							}
 							s, err := w.prov.CreateScope(ctx)
 							c := vkClassify(err)
 							count("create_" + c)
@@ -1128,6 +1132,10 @@ func TestVerifConcStress(t *testing.T) {
 							cancel := context.CancelFunc(func() {})
 							if r.Intn(2) == 0 {
 								ctx, cancel = context.WithCancel(context.Background())
+								if r.Intn(3) == 0 {
+									go cancel()
+									count("child_racing_cancel")
+								}
 							}
 							s, err := sc.s.CreateScope(ctx)
 							c := vkClassify(err)
